@@ -1004,6 +1004,27 @@ func replayRoot(tr mbt.Trace, n int) (root common.Hash) {
 	return e.s.IntermediateRoot(e.del)
 }
 
+// resetNotDirty: per the model, account n is an object CreateAccount put over an existing account and nothing has
+// made the address dirty since (ghost `stale` after a finalisation, a lone "reset" journal entry before it)
+func resetNotDirty(post map[string]interface{}, n string) bool {
+	if inList(post["stale"], n) {
+		return true
+	}
+	reset, other := false, false
+	j, _ := post["journal"].([]interface{})
+	for _, ei := range j {
+		en := ei.(map[string]interface{})
+		if en["a"] == n {
+			if en["t"] == "reset" {
+				reset = true
+			} else {
+				other = true
+			}
+		}
+	}
+	return reset && !other
+}
+
 type copyRec struct {
 	s    *state.StateDB
 	obs  map[string]interface{}
@@ -1028,7 +1049,7 @@ func (e *sdbEnv) batch(s *state.StateDB, variant int) {
 // the same state by the same history and was written to in the same way, (5) the same for a copy of the finalised copy,
 // (6) keep its content whatever the original does afterwards (checked at the end of the behaviour).  That the original's
 // journal / revisions / dirtiness are untouched shows in the original simply continuing the behaviour against the model.
-func (e *sdbEnv) copyChecks() {
+func (e *sdbEnv) copyChecks(post map[string]interface{}) {
 	if e.tr == nil {
 		return
 	}
@@ -1036,15 +1057,28 @@ func (e *sdbEnv) copyChecks() {
 	obs0 := mbt.Canon(e.project(e.s)).(map[string]interface{})
 	cp := e.s.Copy()
 	rep.Checks += 6
-	if ks := mbt.DiffKeys(obs0, mbt.Canon(e.project(cp)).(map[string]interface{})); len(ks) > 0 {
-		e.fail("property", true, "CopyIndependent:copy-differs", fmt.Sprintf("a fresh Copy() answers differently than the original on %v", ks), obs0, e.project(cp))
-		return
+	obsC0 := mbt.Canon(e.project(cp)).(map[string]interface{})
+	if ks := mbt.DiffKeys(obs0, obsC0); len(ks) > 0 {
+		// the model knows one way this happens in both code bases: an object that replaced an existing account
+		// (CreateAccount) and was not dirtied since is not "dirty", so Copy() leaves it behind like Commit does
+		quirk := true
+		for _, n := range ks {
+			if !resetNotDirty(post, n) {
+				quirk = false
+			}
+		}
+		if quirk {
+			e.fail("property", true, "commit:reset-account-not-persisted", fmt.Sprintf("Copy() drops the un-dirtied object CreateAccount put over the existing account %v: the copy answers with the old account", ks), obs0, obsC0)
+		} else {
+			e.fail("property", true, "CopyIndependent:copy-differs", fmt.Sprintf("a fresh Copy() answers differently than the original on %v", ks), obs0, obsC0)
+			return
+		}
 	}
 	sid := cp.Snapshot()
 	e.batch(cp, 1)
 	cp.RevertToSnapshot(sid)
-	if ks := mbt.DiffKeys(obs0, mbt.Canon(e.project(cp)).(map[string]interface{})); len(ks) > 0 {
-		e.fail("property", true, "CopyIndependent:copy-revert", fmt.Sprintf("snapshot + writes + revert inside the copy does not restore accounts %v", ks), obs0, e.project(cp))
+	if ks := mbt.DiffKeys(obsC0, mbt.Canon(e.project(cp)).(map[string]interface{})); len(ks) > 0 {
+		e.fail("property", true, "CopyIndependent:copy-revert", fmt.Sprintf("snapshot + writes + revert inside the copy does not restore accounts %v", ks), obsC0, e.project(cp))
 		return
 	}
 	e.batch(cp, 0)
@@ -1160,7 +1194,7 @@ func (e *sdbEnv) apply(st mbt.Step) (abort bool) {
 		}
 		e.rootChecks(root, trieC)
 		rep.Count("finalises")
-		e.copyChecks() // Copy right after a finalisation: every touched account is dirty but not in the journal
+		e.copyChecks(st.Post) // Copy right after a finalisation: every touched account is dirty but not in the journal
 	case "Commit":
 		root, err := e.s.Commit(e.del)
 		if err != nil {
@@ -1234,7 +1268,7 @@ func (e *sdbEnv) apply(st mbt.Step) (abort bool) {
 		if e.quiet {
 			return false
 		}
-		e.copyChecks()
+		e.copyChecks(st.Post)
 	case "ProveAccount":
 		if e.quiet {
 			return false
